@@ -187,9 +187,35 @@ def is_private_helper(crate, b):
     return internal_callers(crate).get(b.path, 0) > 0
 
 
+_ctx_cache = {}
+
+
+def context_helpers(crate):
+    """private functions with (non-reducible) loops that are evaluated in place in EVERY calling context
+    (Evaluator(inline_private_loops=True)): their loops and sites are judged where they are used, with the caller's
+    arguments and path condition, and not once more on their own.  Moving a loop into such a helper, or folding the helper
+    back into its caller, therefore changes neither a key nor a verdict.  A helper that stays an opaque call anywhere
+    (recursion, nesting deeper than two, clashing loop numbers) is not in the set and is analysed on its own."""
+    cid = id(crate)
+    if cid not in _ctx_cache:
+        seen, opaque = set(), set()
+        for b in crate.body_list:
+            if skip_body(b):
+                continue
+            ev = Evaluator(crate, inline_private_loops='unit')
+            try:
+                ev.eval_entry(b)
+            except RecursionError:
+                continue
+            seen |= ev.transparent_seen
+            opaque |= ev.opaque_loop_calls
+        _ctx_cache[cid] = (seen - opaque, crate)
+    return _ctx_cache[cid][0]
+
+
 def collect(crate, body):
     """-> (evaluator, list of site dicts) for one body evaluated as an entry point"""
-    ev = Evaluator(crate)
+    ev = Evaluator(crate, inline_private_loops='unit')
     try:
         ev.eval_entry(body)
     except RecursionError:
